@@ -354,6 +354,42 @@ def sec_sig_dispatch():
             "def coseAlgMembers : List Int := " + llist([lint(a) for a in members], 0) + "\n")
 
 
+def sec_pss_valueerror():
+    """What verify_signature makes of a ValueError raised by the RSA-PSS primitive (cryptography raises one when the modulus is
+    too small for the digest): probed with a key object whose verify raises it."""
+    from cryptography.hazmat.primitives.asymmetric import rsa
+    from cryptography.exceptions import InvalidSignature
+    from webauthn.helpers.verify_signature import verify_signature
+    base = rsa.RSAPublicKey
+
+    def verify(self, *a, **k):
+        raise ValueError("Digest too large for key size. Use a larger key or different digest.")
+
+    ns = {m: (lambda self, *a, **k: None) for m in getattr(base, "__abstractmethods__", ())}
+    ns["verify"] = verify
+    key = type("RaisingRSAPublicKey", (base,), ns)()
+    outcomes = set()
+    for alg in (-37, -38, -39):
+        try:
+            verify_signature(public_key=key, signature_alg=alg, signature=b"s", data=b"d")
+            outcomes.add("returned")
+        except InvalidSignature:
+            outcomes.add("invalid")
+        except ValueError:
+            outcomes.add("valueerror")
+        except Exception as e:
+            outcomes.add(type(e).__name__)
+    if outcomes == {"invalid"}:
+        flag = True
+    elif outcomes == {"valueerror"}:
+        flag = False
+    else:
+        raise Untranslatable(f"a ValueError of the RSA-PSS primitive becomes {sorted(outcomes)}: neither InvalidSignature nor the ValueError itself")
+    return ("/-- true = `verify_signature` turns a ValueError raised by the RSA-PSS primitive (modulus too small for the digest) into\n"
+            "InvalidSignature, which every caller maps to its own library exception; false = the ValueError escapes -/\n"
+            f"def pssValueErrorIsInvalid : Bool := {lbool(flag)}\n")
+
+
 def sec_curves_hashes():
     import hashlib as hl
     from webauthn.helpers.algorithms import get_ec2_curve
@@ -698,6 +734,7 @@ def build_text():
           "def safetynetTimestampRejects (timestamp_ms now_seconds : Int) : Bool := Fallback.safetynetTimestampRejects timestamp_ms now_seconds\n"
           "def safetynetTimestampRequiresInt : Bool := Fallback.safetynetTimestampRequiresInt\n")
     S.add("tpm-eku", sec_tpm_eku, "def tpmEkuRuleIsContains : Bool := Fallback.tpmEkuRuleIsContains\n")
+    S.add("pss-valueerror", sec_pss_valueerror, "def pssValueErrorIsInvalid : Bool := Fallback.pssValueErrorIsInvalid\n")
     S.add("defaults", sec_defaults,
           "def defaultSupportedPubKeyAlgs : List Int := Fallback.defaultSupportedPubKeyAlgs\n"
           "def defaultPubKeyCredParams : List (String × Int) := Fallback.defaultPubKeyCredParams\n"
